@@ -16,7 +16,9 @@ Positions == {"struct", "field", "interface", "op", "enum", "enumerator", "custo
 
 ----------------------------------------------------------------------------------------------------
 (* tags *)
-TagPositions == {"op0", "op1", "op2", "struct", "enumerator"}       \* op0(p, q); op1(p) -> bool; op2(p) -> (r: bool, s: int32); enumerator A(f: int32)
+\* op0(p, q); op1(p) -> bool; op2(p) -> (r: bool, s: int32); op3(p) -> (p: bool, s: int32) - a return member named like a
+\* parameter; enumerator A(f: int32)
+TagPositions == {"op0", "op1", "op2", "op3", "struct", "enumerator"}
 Conts == <<  <<>>,
              << [indent |-> <<"sp", "sp", "sp">>, k |-> "t"] >>,
              << [indent |-> <<"sp", "sp">>, k |-> "t"], [indent |-> <<"sp", "sp", "sp">>, k |-> "lt"], [indent |-> <<>>, k |-> "blank"], [indent |-> <<"sp", "sp">>, k |-> "tl"] >>  >>
@@ -25,14 +27,15 @@ Inlines == {"none", "emptycolon", "text", "padded", "link"}
 \* have different targets (all three exist in module M), so a link bound to another tag's target is visible
 LinkTargets == <<"T", "S", "E">>
 TagSpecs == [t : {"param"}, id : {"p", "q", "zz"}, inline : Inlines, cont : 1..3]
-            \cup [t : {"returns"}, id : {"", "r", "zz"}, inline : Inlines, cont : 1..3]
+            \cup [t : {"returns"}, id : {"", "r", "p", "zz"}, inline : Inlines, cont : 1..3]
             \cup [t : {"see"}, id : {"T", "Nope"}, inline : {"none"}, cont : {1}]
-ParamsOf(pos) == CASE pos = "op0" -> {"p", "q"} [] pos \in {"op1", "op2"} -> {"p"} [] OTHER -> {}
+ParamsOf(pos) == CASE pos = "op0" -> {"p", "q"} [] pos \in {"op1", "op2", "op3"} -> {"p"} [] OTHER -> {}
 Fits(tag, pos) ==
   CASE tag.t = "see" -> TRUE
-    [] tag.t = "param" -> pos = "enumerator" \/ (pos \in {"op0", "op1", "op2"} /\ tag.id \in ParamsOf(pos))
+    [] tag.t = "param" -> pos = "enumerator" \/ (pos \in {"op0", "op1", "op2", "op3"} /\ tag.id \in ParamsOf(pos))
     [] tag.t = "returns" -> CASE pos = "op1" -> tag.id = ""
                               [] pos = "op2" -> tag.id \in {"", "r", "s"}
+                              [] pos = "op3" -> tag.id \in {"", "p", "s"}
                               [] OTHER -> FALSE
 LinksIn(tag) == (IF tag.inline = "link" THEN 1 ELSE 0) + (IF tag.t # "see" /\ tag.cont = 3 THEN 2 ELSE 0)
 ExpTag(tag) == [id |-> tag.id, inline |-> tag.inline, cont |-> IF tag.t = "see" THEN <<>> ELSE RefMessage(Conts[tag.cont])]
@@ -117,6 +120,7 @@ AllIndents == Indents
 AllKinds == Kinds
 FieldOnly == {"field"}
 Op2Only == {"op2"}
+Op3Only == {"op3"}
 FewIndents == {<<>>, <<"sp">>, <<"wide">>, <<"sp", "sp">>}
 FewKinds == {"t", "lt", "ws", "blank"}
 ====================================================================================================
